@@ -42,7 +42,13 @@ func runC16(ctx *Ctx, c c16Case) {
 			}
 		}
 	}
-	rr := RunWorkflow(d, RunOpts{Pre: pre, Timeout: 20e9, Env: []string{"VERIF_LINGER_MS=150"}})
+	env := []string{"VERIF_LINGER_MS=150"}
+	if c.Unplug != "" {
+		// widen the window between the start of one process and the next: a readiness check that is not
+		// completed before the first `go proc.Run()` lets already started processes execute commands
+		env = append(env, "VERIF_DELAY=wf.start:40")
+	}
+	rr := RunWorkflow(d, RunOpts{Pre: pre, Timeout: 20e9, Env: env})
 	defer os.RemoveAll(rr.Dir)
 	modelPlan(ctx, c, rr)
 	ctx.Res.Eval(fmt.Sprintf("%v", c), len(c.Dag.procNames()) > 1, c)
